@@ -60,6 +60,12 @@ mod __verif_kani {
         match which { 0 => base || cp == 0x7F, 1 => base || cp == 0x7F || cp > 0x7F, 2 => base, _ => base || cp > 0x7F }
     }
     fn any_bool() -> bool { kani::any() }
+    /// contract of find_json_escape, proved for every buffer and start by the Verus unit c09_scanner (seam R4)
+    fn contract_find_json_escape(bytes: &[u8], start: usize) -> usize {
+        let mut i = start;
+        while i < bytes.len() { let b = bytes[i]; if b == b'"' || b == b'\\' || b < 0x20 { return i; } i += 1; }
+        bytes.len()
+    }
     /// class 0: ASCII, 1: other BMP (2-3 byte UTF-8), 2: supplementary planes (4-byte UTF-8)
     fn any_char_in(class: u8) -> char {
         let c: char = kani::any();
@@ -80,7 +86,7 @@ mod __verif_kani {
         ($name:ident, $which:expr, $class:expr) => {
             #[kani::proof]
             #[kani::unwind(18)]
-            #[kani::stub(crate::util::simd::escape::avx2_enabled, any_bool)]
+            #[kani::stub(crate::util::simd::escape::find_json_escape, contract_find_json_escape)]
             pub fn $name() { check($which, $class); }
         };
     }
@@ -96,23 +102,23 @@ mod __verif_kani {
     char_case!(c09_jq_ascii_bmp, 1, 1);
     //@ kind=P props=C09 fn=write_json_body_jq_ascii : every supplementary-plane scalar value (U+10000..U+10FFFF): the body written for the one-character string decodes (RFC 8259 section 7) back to the character, and it is escaped iff the convention requires: C0 controls, DEL, quote, backslash and every non-ASCII character (surrogate pairs above the BMP)
     char_case!(c09_jq_ascii_supp, 1, 2);
-    //@ kind=P props=C09 fn=write_json_body_yq : all 128 ASCII characters: the body written for the one-character string decodes (RFC 8259 section 7) back to the character, and it is escaped iff the convention requires: C0 controls, quote, backslash (DEL and non-ASCII pass through; exercises the find_json_escape span copy)
+    //@ kind=P props=C09 stubs=find_json_escape fn=write_json_body_yq : all 128 ASCII characters: the body written for the one-character string decodes (RFC 8259 section 7) back to the character, and it is escaped iff the convention requires: C0 controls, quote, backslash (DEL and non-ASCII pass through; exercises the find_json_escape span copy)
     char_case!(c09_yq_ascii, 2, 0);
-    //@ kind=P props=C09 fn=write_json_body_yq : every non-ASCII BMP scalar value (U+0080..U+FFFF without surrogates): the body written for the one-character string decodes (RFC 8259 section 7) back to the character, and it is escaped iff the convention requires: C0 controls, quote, backslash (DEL and non-ASCII pass through; exercises the find_json_escape span copy)
+    //@ kind=P props=C09 stubs=find_json_escape fn=write_json_body_yq : every non-ASCII BMP scalar value (U+0080..U+FFFF without surrogates): the body written for the one-character string decodes (RFC 8259 section 7) back to the character, and it is escaped iff the convention requires: C0 controls, quote, backslash (DEL and non-ASCII pass through; exercises the find_json_escape span copy)
     char_case!(c09_yq_bmp, 2, 1);
-    //@ kind=P props=C09 fn=write_json_body_yq : every supplementary-plane scalar value (U+10000..U+10FFFF): the body written for the one-character string decodes (RFC 8259 section 7) back to the character, and it is escaped iff the convention requires: C0 controls, quote, backslash (DEL and non-ASCII pass through; exercises the find_json_escape span copy)
+    //@ kind=P props=C09 stubs=find_json_escape fn=write_json_body_yq : every supplementary-plane scalar value (U+10000..U+10FFFF): the body written for the one-character string decodes (RFC 8259 section 7) back to the character, and it is escaped iff the convention requires: C0 controls, quote, backslash (DEL and non-ASCII pass through; exercises the find_json_escape span copy)
     char_case!(c09_yq_supp, 2, 2);
-    //@ kind=P props=C09 fn=write_json_body_yq_ascii : all 128 ASCII characters: the body written for the one-character string decodes (RFC 8259 section 7) back to the character, and it is escaped iff the convention requires: C0 controls, quote, backslash and every non-ASCII character
+    //@ kind=P props=C09 stubs=find_json_escape fn=write_json_body_yq_ascii : all 128 ASCII characters: the body written for the one-character string decodes (RFC 8259 section 7) back to the character, and it is escaped iff the convention requires: C0 controls, quote, backslash and every non-ASCII character
     char_case!(c09_yq_ascii_ascii, 3, 0);
-    //@ kind=P props=C09 fn=write_json_body_yq_ascii : every non-ASCII BMP scalar value (U+0080..U+FFFF without surrogates): the body written for the one-character string decodes (RFC 8259 section 7) back to the character, and it is escaped iff the convention requires: C0 controls, quote, backslash and every non-ASCII character
+    //@ kind=P props=C09 stubs=find_json_escape fn=write_json_body_yq_ascii : every non-ASCII BMP scalar value (U+0080..U+FFFF without surrogates): the body written for the one-character string decodes (RFC 8259 section 7) back to the character, and it is escaped iff the convention requires: C0 controls, quote, backslash and every non-ASCII character
     char_case!(c09_yq_ascii_bmp, 3, 1);
-    //@ kind=P props=C09 fn=write_json_body_yq_ascii : every supplementary-plane scalar value (U+10000..U+10FFFF): the body written for the one-character string decodes (RFC 8259 section 7) back to the character, and it is escaped iff the convention requires: C0 controls, quote, backslash and every non-ASCII character
+    //@ kind=P props=C09 stubs=find_json_escape fn=write_json_body_yq_ascii : every supplementary-plane scalar value (U+10000..U+10FFFF): the body written for the one-character string decodes (RFC 8259 section 7) back to the character, and it is escaped iff the convention requires: C0 controls, quote, backslash and every non-ASCII character
     char_case!(c09_yq_ascii_supp, 3, 2);
 
     //@ kind=B props=C09 tier=thorough bound=strings_of_2_chars fn=write_json_body_jq,write_json_body_jq_ascii,write_json_body_yq,write_json_body_yq_ascii : concatenation: for every two-character string the body is the body of the first character followed by the body of the second (so strings round-trip character by character)
     #[kani::proof]
     #[kani::unwind(34)]
-    #[kani::stub(crate::util::simd::escape::avx2_enabled, any_bool)]
+    #[kani::stub(crate::util::simd::escape::find_json_escape, contract_find_json_escape)]
     pub fn c09_two_chars_concatenate() {
         let which: u8 = kani::any();
         kani::assume(which < 4);
